@@ -481,7 +481,10 @@ FD_OPS = ['isalive', 'close', 'close', 'send', 'read', 'close-elsewhere', 'with-
 @st.composite
 def fd_cases(draw):
     return {'transport': draw(st.sampled_from(['fd', 'socket'])),
-            'ops': draw(st.lists(st.sampled_from(FD_OPS), min_size=1, max_size=8))}
+            'ops': draw(st.lists(st.sampled_from(FD_OPS), min_size=1, max_size=8)),
+            # the descriptor number the object is given: whatever the kernel hands out, or 0 (what open() returns
+            # in a process started without standard input: a daemon, a cron job)
+            'fdnum': draw(st.sampled_from(['any', 'any', 'any', 'zero']))}
 
 
 def check_fdsock(case, col=None):
@@ -489,7 +492,19 @@ def check_fdsock(case, col=None):
     fds0 = nfds()
     a, b = socket.socketpair()
     b.settimeout(0.2)
-    if case['transport'] == 'fd':
+    saved_stdin = None
+    zero = case['transport'] == 'fd' and case.get('fdnum') == 'zero'
+    if zero:
+        try:
+            saved_stdin = os.dup(0)
+        except OSError:
+            saved_stdin = -1          # no standard input in this process: 0 is free already
+    if zero:
+        os.dup2(a.fileno(), 0)
+        fd = 0
+        a.close()
+        sp = fdpexpect.fdspawn(fd, timeout=1)
+    elif case['transport'] == 'fd':
         fd = os.dup(a.fileno())
         a.close()
         sp = fdpexpect.fdspawn(fd, timeout=1)
@@ -611,6 +626,9 @@ def check_fdsock(case, col=None):
                 os.close(fd)
             except OSError:
                 pass
+        if saved_stdin is not None and saved_stdin >= 0:
+            os.dup2(saved_stdin, 0)
+            os.close(saved_stdin)
     del sp
     gc.collect()
     fds1 = nfds()
@@ -618,6 +636,8 @@ def check_fdsock(case, col=None):
         raise Violation('fd-leak', '%s: open descriptors %d before, %d after' % (case['transport'], fds0, fds1))
     if col is not None:
         col.label('transport=' + case['transport'])
+        if zero:
+            col.label('descriptor-number-0')
         col.case(case, n_life >= 2 and bool(feats) and len(case['ops']) >= 3)
 
 
